@@ -540,6 +540,14 @@ def c12_scenarios(tier, seed):
                         fl["shrinktime"] = st
                     out.append(scenario("c12-%s-%s-%d-%d" % (kind, direction, k, sd), {"body": body}, fl,
                                         tag={"mayfail": True, "goal": "int", "dir": direction, "k": enc(k), "zero": enc(0), "kind": kind, "threshold": str(k)}))
+    # through MakeCheck under a real *testing.T whose test binary has no timeout (-test.timeout=0: Deadline() reports none): minimization still has its full budget
+    for kind, k, direction in (("Int64", 1000, "ge"), ("Int32", -70000, "le"), ("Uint64", (1 << 63) + 5, "ge"), ("Uint8", 200, "ge")):
+        signed, bits = INT_KINDS[kind]
+        enc = WIpy if signed else Wpy
+        for sd in seeds(rng, 2 if tier == "quick" else 10):
+            body = [draw(g(kind), "x", "x"), iff("x", direction, k, [op("fatalf", site=1)])]
+            out.append(scenario("c12-makecheck-%s-%d-%d" % (kind, k, sd), {"body": body}, {"checks": 3000, "seed": sd, "nofailfile": "true"}, entry="makecheck",
+                                name="TestMinimizeNoTimeout", tag={"mayfail": True, "goal": "int", "dir": direction, "k": enc(k), "zero": enc(0), "kind": kind, "threshold": str(k)}))
     # a slow search phase (60 ms per random test case, typically a few seconds) must not eat the 1 s minimization budget
     for kind, k in (("Uint64", (1 << 63) + 12345), ("Int64", -(1 << 62) - 7)):
         signed, bits = INT_KINDS[kind]
